@@ -54,6 +54,9 @@ class Ops:
         else:
             self.lines.append('C %s %s' % (hx(s), hx(base)))
 
+    def href_from_file(self, s):
+        self.lines.append('F %s' % hx(s))
+
     def write(self, path):
         with open(path, 'w') as f:
             f.write('\n'.join(self.lines) + '\n')
